@@ -230,6 +230,67 @@ fn check_reuse(rep: &mut Report) {
     }
 }
 
+/// One builder used for two messages: `arg(a); serialize; serialize; arg(b); serialize` for all ordered pairs (a, b) of
+/// a reduced corpus (every k-th type and the memo-sensitive ones; b ranges over types that add table entries, types
+/// already in the table and primitives). Every output must be exactly what a fresh builder emits for the same
+/// arguments (and that is conformant by the native level).
+fn check_reuse_pairs(ctx: &Ctx, tier: Tier) -> Report {
+    let es0 = corpus_all::entries();
+    let named = ["u8", "bool", "String", "Nat", "Vec<u16>", "Vec<u8>", "S2", "E1", "MA", "MB", "List<u8>", "Option<u8>", "BTreeMap<String,Nat>", "Twin#1", "Twin#2", "unit", "Principal"];
+    let reduced: Vec<usize> = (0..es0.len()).filter(|i| i % tier.pick(41, 11) == 0 || named.contains(&es0[*i].name.as_str())).collect();
+    drop(es0);
+    let m = reduced.len() as u64;
+    let mut rep = ctx.par_range("builder reuse: arg, serialize twice, arg, serialize - ordered pairs", m * m, 16, corpus_all::entries, |es, idx, rep| {
+        let (a, b) = (&es[reduced[(idx / m) as usize]], &es[reduced[(idx % m) as usize]]);
+        rep.evaluations += 1;
+        rep.transitions += 6;
+        rep.traces_validated += 1;
+        let fresh = |args: &[&corpus::Entry]| -> Result<Vec<u8>, String> {
+            let mut bld = candid::ser::IDLBuilder::new();
+            for e in args {
+                (e.arg_into)(&mut bld, 0)?;
+            }
+            catch(|| bld.serialize_to_vec()).map_err(|p| format!("panic: {p}"))?.map_err(|e| format!("encode error: {e}"))
+        };
+        let r: Result<Option<String>, String> = (|| {
+            let want1 = fresh(&[a])?;
+            let want2 = fresh(&[a, b])?;
+            let mut bld = candid::ser::IDLBuilder::new();
+            (a.arg_into)(&mut bld, 0)?;
+            let s1 = catch(|| bld.serialize_to_vec()).map_err(|p| format!("panic: {p}"))?.map_err(|e| format!("first serialize: {e}"))?;
+            let s1b = catch(|| bld.serialize_to_vec()).map_err(|p| format!("panic: {p}"))?.map_err(|e| format!("second serialize: {e}"))?;
+            (b.arg_into)(&mut bld, 0)?;
+            let s2 = catch(|| bld.serialize_to_vec()).map_err(|p| format!("panic: {p}"))?.map_err(|e| format!("serialize after the second arg: {e}"))?;
+            if s1 != want1 {
+                return Ok(Some(format!("first serialize gives {}, a fresh builder {}", hex(&s1), hex(&want1))));
+            }
+            if s1b != want1 {
+                return Ok(Some(format!("second serialize gives {}, a fresh builder {}", hex(&s1b), hex(&want1))));
+            }
+            if s2 != want2 {
+                return Ok(Some(format!("serialize after a further arg gives {}, a fresh builder with both arguments {}", hex(&s2), hex(&want2))));
+            }
+            Ok(None)
+        })();
+        match r {
+            Ok(None) => {
+                rep.nontrivial += 1;
+                rep.outcome("builder-reuse-pair:as-fresh");
+            }
+            Ok(Some(msg)) => {
+                rep.outcome("builder-reuse-pair:differs");
+                rep.violation(&format!("builder-reuse-pair|{}|{}", a.name, b.name), msg, json!({"ops": "arg(a); serialize; serialize; arg(b); serialize", "types": [a.name, b.name]}));
+            }
+            Err(e) => {
+                rep.outcome("builder-reuse-pair:error");
+                rep.violation(&format!("builder-reuse-pair|{}|{}|error", a.name, b.name), first_line(&e), json!({"ops": "arg(a); serialize; serialize; arg(b); serialize", "types": [a.name, b.name]}));
+            }
+        }
+    });
+    rep.notes.push(format!("builder reuse over {m} x {m} ordered pairs of corpus types"));
+    rep
+}
+
 pub fn run(tier: Tier, replay: Option<&str>) -> i32 {
     if replay.is_some() {
         println!("C03 cases are re-run by the quick tier (cases are identified by corpus type / triple)");
@@ -240,11 +301,12 @@ pub fn run(tier: Tier, replay: Option<&str>) -> i32 {
     let (triples, notes) = c10::build(tier);
     rep.merge(check_untyped(&ctx, &triples));
     check_reuse(&mut rep);
+    rep.merge(check_reuse_pairs(&ctx, tier));
     rep.notes.extend(notes);
     finish(
         &ctx,
         rep,
-        "native: every small value of every corpus Rust type through Encode!; untyped: every (environment, type, value) triple of the C10 scope through IDLArgs::to_bytes_with_types and IDLBuilder::value_arg_with_type (blobs spelled both ways), every value typed at the triple's type only through the annotation allowances (nat at int with magnitudes around every LEB128 group boundary, null at opt, anything at reserved, absent optional field, float64 literal at float32; the message must conform at the normal form), plus two-argument messages sharing a table. Oracle: strict reference decoder (composite-only table, ascending unique ids/method names, index ranges, methods are functions, values of declared types, nothing left over) returns the same abstract values at argument types structurally equal (R3) to the specified ones, and re-serialising exactly what was decoded reproduces the bytes (minimal (S)LEB128, little-endian fixed width, declared variant index). Encoding twice gives identical bytes; serialize twice on one builder. Non-trivial = conformant messages.",
+        "native: every small value of every corpus Rust type through Encode!; untyped: every (environment, type, value) triple of the C10 scope through IDLArgs::to_bytes_with_types and IDLBuilder::value_arg_with_type (blobs spelled both ways), every value typed at the triple's type only through the annotation allowances (nat at int with magnitudes around every LEB128 group boundary, null at opt, anything at reserved, absent optional field, float64 literal at float32; the message must conform at the normal form), plus two-argument messages sharing a table. Oracle: strict reference decoder (composite-only table, ascending unique ids/method names, index ranges, methods are functions, values of declared types, nothing left over) returns the same abstract values at argument types structurally equal (R3) to the specified ones, and re-serialising exactly what was decoded reproduces the bytes (minimal (S)LEB128, little-endian fixed width, declared variant index). Encoding twice gives identical bytes; serialize twice on one builder, and `arg(a); serialize; serialize; arg(b); serialize` on one builder for all ordered pairs of a reduced corpus (each output equal to a fresh builder's). Non-trivial = conformant messages.",
         &["R2 strict decoder and encoder of values", "Cor::to_ty / to_val as the specified mapping of Rust types"],
         json!({}),
     )
